@@ -149,6 +149,19 @@ func Check(c *Case) (res kit.Result) {
 			res.Failf("%s panicked after modifying: %s", what, d)
 			return
 		}
+		// nothing was modified - so both operands still work in calls with matching shapes
+		okDst := kit.AllocAny(c.D, signal.Allocator{Channels: c.C1, Length: c.F1 + 1, Capacity: c.F1 + 1})
+		okSrc := kit.AnyRoot(c.S, c.C2, c.F2+1)
+		var r1, r2 int
+		if p, v := kit.Try(func() { r1 = e.Convert(src.win, okDst); r2 = e.Convert(okSrc, dst.win) }); p {
+			res.Failf("%s was rejected, and afterwards a conversion of the same operands with matching partners panicked: %v", what, v)
+			return
+		}
+		if w1, w2 := kit.CeilDiv(src.wh.Len, c.C1), kit.CeilDiv(dst.wh.Len, c.C2); r1 != w1 || r2 != w2 {
+			res.Failf("%s was rejected; afterwards conversions of the same operands with matching partners returned %d and %d, want %d and %d", what, r1, r2, w1, w2)
+			return
+		}
+		res.Class("operandsUsedAgainAfterTheRejection")
 		res.Class("conv:" + e.Fn)
 	case "append":
 		if c.C2 < 1 || c.C2 > 16 || c.C2 == c.C1 {
@@ -179,6 +192,22 @@ func Check(c *Case) (res kit.Result) {
 			res.Failf("%s panicked after modifying: %s", what, d)
 			return
 		}
+		// nothing was modified - so the same destination still takes a source with matching channels
+		// (and the rejected source is still a destination for one of its own shape)
+		for i, o := range []*operand{dst, src} {
+			C := []int{c.C1, c.C2}[i]
+			more := kit.AnyRoot(c.S, C, 1)
+			before := o.win.Hdr().Len
+			if p, v := kit.Try(func() { o.win.Append(more) }); p {
+				res.Failf("%s was rejected, and afterwards an Append of a matching %d-channel frame to the %s panicked: %v", what, C, []string{"same destination", "rejected source"}[i], v)
+				return
+			}
+			if h := o.win.Hdr(); h.Len != before+C || !kit.SameVal(o.win.Get(before), more.Get(0)) {
+				res.Failf("%s was rejected; a matching Append afterwards left the %s with %d samples (was %d, one frame of %d appended)", what, []string{"same destination", "rejected source"}[i], h.Len, before, C)
+				return
+			}
+		}
+		res.Class("operandsUsedAgainAfterTheRejection")
 		res.Class("append")
 	case "readStriped", "writeStriped":
 		f, ok := stripedTable[c.S+"/"+c.D]
@@ -284,6 +313,27 @@ func stripedRun[BT, ST signal.SignalTypes](c *Case, read bool) (res kit.Result) 
 	if hidden > 0 {
 		res.Class("outerSliceWithSpareCapacity")
 	}
+	// nothing was modified - so the same buffer still works with the right number of slices
+	right := make([][]ST, C)
+	for i := range right {
+		right[i] = make([]ST, c.F1)
+	}
+	var ret int
+	if p, v := kit.Try(func() {
+		if read {
+			ret = signal.ReadStriped(w, right)
+		} else {
+			ret = signal.WriteStriped(right, w)
+		}
+	}); p {
+		res.Failf("%s was rejected, and afterwards the same call with %d slices panicked: %v", what, C, v)
+		return
+	}
+	if ret != c.F1 {
+		res.Failf("%s was rejected; afterwards the same call with %d slices of %d returned %d", what, C, c.F1, ret)
+		return
+	}
+	res.Class("operandsUsedAgainAfterTheRejection")
 	res.Class(c.Entry)
 	return
 }
